@@ -391,6 +391,8 @@ func init() {
 					return strings.Contains(o.Construct, "= false")
 				case "RW.RANGEDISPATCH":
 					return strings.HasPrefix(o.Construct, "range statement that is not an element")
+				case "RW.ORACLE": // a yield function used as a value is C12's (silently mistranslated)
+					return !strings.HasPrefix(o.Construct, "a use of ")
 				case "OPT.ORDER":
 					return o.Construct == "file using seq" || o.Construct == "second file using seq" || strings.HasPrefix(o.Construct, "a file is chosen for writing")
 				case "RW.ALLFILES":
